@@ -8,6 +8,7 @@
 package c13
 
 import (
+	"github.com/crossplane/crossplane/internal/verifshim/vmap"
 	"context"
 	"fmt"
 	"sort"
@@ -500,6 +501,13 @@ type scenario struct {
 	threads        [][]op
 	bound          int
 	informerFaults bool
+	// mapOrders: Go's map iteration order is unspecified and differs from
+	// one range statement to the next. With this flag the explorer owns it:
+	// every range over a two-or-more-entry map in the engine iterates in
+	// sorted or in reverse order, alternating per range statement, starting
+	// with either (a choice) - enough for two concurrent loops over one map
+	// to meet in opposite directions.
+	mapOrders bool
 }
 
 func sw(c string, ks ...string) op  { return op{"StartWatches", c, ks} }
@@ -508,19 +516,23 @@ func stw(c string, ks ...string) op { return op{"StopWatches", c, ks} }
 func curated(bound int) []scenario {
 	start1 := op{"Start", "c1", nil}
 	return []scenario{
-		{"dup-start-watch", nil, []op{start1}, [][]op{{sw("c1", "k1")}, {sw("c1", "k1")}}, bound, false},
-		{"dup-start-watch-3", nil, []op{start1}, [][]op{{sw("c1", "k1")}, {sw("c1", "k1", "k2")}, {sw("c1", "k2")}}, bound, false},
-		{"stop-watch-race", nil, []op{start1, sw("c1", "k1", "k2")}, [][]op{{stw("c1", "k1")}, {stw("c1", "k1", "k2")}, {{"GetWatches", "c1", nil}}}, bound, false},
-		{"start-stop-isrunning", nil, nil, [][]op{{start1, sw("c1", "k1")}, {{"Stop", "c1", nil}}, {{"IsRunning", "c1", nil}}}, bound, false},
-		{"stop-vs-startwatches", nil, []op{start1}, [][]op{{{"Stop", "c1", nil}}, {sw("c1", "k1")}}, bound, false},
-		{"remove-informer", nil, []op{start1, sw("c1", "k1")}, [][]op{{{"RemoveInformer", "", []string{"k1"}}}, {sw("c1", "k1")}}, bound, false},
-		{"two-controllers", nil, []op{start1, {"Start", "c2", nil}, sw("c1", "k1"), sw("c2", "k1")}, [][]op{{{"Stop", "c1", nil}}, {sw("c2", "k1", "k2")}, {stw("c2", "k1")}}, bound, false},
-		{"gc-vs-startwatches", []string{"k1"}, []op{start1, sw("c1", "xr", "rev", "k1", "k2")}, [][]op{{{"GC", "c1", nil}}, {sw("c1", "k2")}, {{"GetWatches", "c1", nil}}}, bound, false},
-		{"gc-unused", []string{""}, []op{start1, sw("c1", "xr", "rev", "k1")}, [][]op{{{"GC", "c1", nil}}, {{"GetWatches", "c1", nil}}}, bound, false},
-		{"start-start-stop", nil, nil, [][]op{{start1}, {start1}, {{"Stop", "c1", nil}}}, bound, false},
-		{"restart", nil, []op{start1, sw("c1", "k1")}, [][]op{{{"Stop", "c1", nil}, start1}, {sw("c1", "k1")}, {{"GetWatches", "c1", nil}}}, bound, false},
-		{"shared-informer-removed", nil, []op{start1, {"Start", "c2", nil}, sw("c1", "k1")}, [][]op{{sw("c2", "k1")}, {{"RemoveInformer", "", []string{"k1"}}}}, bound, false},
-		{"shared-informer-removed-3", nil, []op{start1, {"Start", "c2", nil}, sw("c1", "k1")}, [][]op{{sw("c2", "k1")}, {{"RemoveInformer", "", []string{"k1"}}}, {sw("c1", "k1", "k2")}}, bound, false},
+		{"dup-start-watch", nil, []op{start1}, [][]op{{sw("c1", "k1")}, {sw("c1", "k1")}}, bound, false, false},
+		{"dup-start-watch-3", nil, []op{start1}, [][]op{{sw("c1", "k1")}, {sw("c1", "k1", "k2")}, {sw("c1", "k2")}}, bound, false, false},
+		{"stop-watch-race", nil, []op{start1, sw("c1", "k1", "k2")}, [][]op{{stw("c1", "k1")}, {stw("c1", "k1", "k2")}, {{"GetWatches", "c1", nil}}}, bound, false, false},
+		{"start-stop-isrunning", nil, nil, [][]op{{start1, sw("c1", "k1")}, {{"Stop", "c1", nil}}, {{"IsRunning", "c1", nil}}}, bound, false, false},
+		{"stop-vs-startwatches", nil, []op{start1}, [][]op{{{"Stop", "c1", nil}}, {sw("c1", "k1")}}, bound, false, false},
+		{"remove-informer", nil, []op{start1, sw("c1", "k1")}, [][]op{{{"RemoveInformer", "", []string{"k1"}}}, {sw("c1", "k1")}}, bound, false, false},
+		{"two-controllers", nil, []op{start1, {"Start", "c2", nil}, sw("c1", "k1"), sw("c2", "k1")}, [][]op{{{"Stop", "c1", nil}}, {sw("c2", "k1", "k2")}, {stw("c2", "k1")}}, bound, false, false},
+		{"gc-vs-startwatches", []string{"k1"}, []op{start1, sw("c1", "xr", "rev", "k1", "k2")}, [][]op{{{"GC", "c1", nil}}, {sw("c1", "k2")}, {{"GetWatches", "c1", nil}}}, bound, false, false},
+		{"gc-unused", []string{""}, []op{start1, sw("c1", "xr", "rev", "k1")}, [][]op{{{"GC", "c1", nil}}, {{"GetWatches", "c1", nil}}}, bound, false, false},
+		{"start-start-stop", nil, nil, [][]op{{start1}, {start1}, {{"Stop", "c1", nil}}}, bound, false, false},
+		{"restart", nil, []op{start1, sw("c1", "k1")}, [][]op{{{"Stop", "c1", nil}, start1}, {sw("c1", "k1")}, {{"GetWatches", "c1", nil}}}, bound, false, false},
+		{"shared-informer-removed", nil, []op{start1, {"Start", "c2", nil}, sw("c1", "k1")}, [][]op{{sw("c2", "k1")}, {{"RemoveInformer", "", []string{"k1"}}}}, bound, false, false},
+		{"shared-informer-removed-3", nil, []op{start1, {"Start", "c2", nil}, sw("c1", "k1")}, [][]op{{sw("c2", "k1")}, {{"RemoveInformer", "", []string{"k1"}}}, {sw("c1", "k1", "k2")}}, bound, false, false},
+		// Two informers removed at once (two CRDs deleted together) under two
+		// running controllers: the removals loop over the controllers.
+		{mapOrders: true, name: "two-informer-removals", pre: []op{start1, {"Start", "c2", nil}, sw("c1", "k1", "k2"), sw("c2", "k1", "k2")}, threads: [][]op{{{"RemoveInformer", "", []string{"k1"}}}, {{"RemoveInformer", "", []string{"k2"}}}}, bound: bound},
+		{mapOrders: true, name: "two-informer-removals-vs-startwatches", pre: []op{start1, {"Start", "c2", nil}, sw("c1", "k1"), sw("c2", "k2")}, threads: [][]op{{{"RemoveInformer", "", []string{"k1"}}}, {{"RemoveInformer", "", []string{"k2"}}}, {sw("c1", "k2")}}, bound: bound},
 		{informerFaults: true, name: "stop-with-informer-error", pre: []op{start1, sw("c1", "k1", "k2")}, threads: [][]op{{{"Stop", "c1", nil}, {"Stop", "c1", nil}}, {{"IsRunning", "c1", nil}}}, bound: bound},
 		{informerFaults: true, name: "watches-with-informer-error", pre: []op{start1, sw("c1", "k1")}, threads: [][]op{{sw("c1", "k2"), stw("c1", "k1", "k2")}, {{"Stop", "c1", nil}}}, bound: bound},
 	}
@@ -556,6 +568,22 @@ func body(r *explore.Run, rep *report.R, sc scenario) {
 	}
 	s := sched.New(r)
 	s.ReleasePoints = true
+	vmap.Order = nil
+	if sc.mapOrders {
+		calls := r.Free(2, "first-map-range-iterates(sorted,reversed)")
+		vmap.Order = func(_ string, n int) []int {
+			calls++
+			if calls%2 == 1 {
+				return nil
+			}
+			p := make([]int, n)
+			for i := range p {
+				p[i] = n - 1 - i
+			}
+			return p
+		}
+		defer func() { vmap.Order = nil }()
+	}
 	if sc.informerFaults {
 		w.cache.fail = func() bool { return r.Choose(2, "informer-get") == 1 }
 	}
